@@ -119,7 +119,9 @@ def tanh_gelu(rng, dtype, shape, coef=0.044715, int_pow=True, literal=False):
 
 def bias_gelu(rng, dtype, shape, contrib, commuted=False, approximate=False, bias_rank=1):
     D = shape[-1]
-    bshape = (D,) if bias_rank == 1 else (1, D)
+    # bias_rank: 1 -> [D]; 2 -> [1, D]; "col" -> [D, 1] and "mid" -> [1, D, 1] (a per-ROW bias: broadcasts along the
+    # second-to-last axis, which only type-checks against a square [..., D, D] input); "full" -> [D, D]
+    bshape = {1: (D,), 2: (1, D), "col": (D, 1), "mid": (1, D, 1), "full": (D, D), 3: (1, 1, D)}[bias_rank]
 
     @script()
     def bg_onnx(x, b):
@@ -151,7 +153,7 @@ def bias_gelu(rng, dtype, shape, contrib, commuted=False, approximate=False, bia
 
 # ----------------------------------------------------------------------------------------------- normalisation
 def rms_norm(rng, dtype, shape, eps=1e-6, scale_first=False, cast_in=False, cast_scale=False, eps_form="tensor1",
-             axis=-1, scale_shape=None, recip=True, literal=False, pow_exp=2.0):
+             axis=-1, scale_shape=None, recip=True, literal=False, pow_exp=2.0, eps_after_sqrt=False, abs_mean=False):
     """x (dtype) [-> Cast f32] -> x^2 -> mean(-1) -> +eps -> sqrt -> 1/ -> x*inv [-> Cast back] -> * scale"""
     D = shape[-1]
     sshape = tuple(scale_shape) if scale_shape is not None else (D,)
@@ -172,7 +174,15 @@ def rms_norm(rng, dtype, shape, eps=1e-6, scale_first=False, cast_in=False, cast
         x_sq = op.Pow(xc, op.Constant(value=C_pow))
         mean_sq = op.ReduceMean(x_sq, AX, keepdims=1, noop_with_empty_axes=0)
         e = op.Constant(value=C_eps)
-        rms_ = op.Sqrt(op.Add(mean_sq, e))
+        if eps_after_sqrt:
+            # x / (sqrt(mean(x^2)) + eps): NOT an RMS normalisation (differs as soon as rms ~ sqrt(eps))
+            rms_ = op.Add(op.Sqrt(mean_sq), e)
+        elif abs_mean:
+            # x / sqrt(mean(|x|)^2 + eps): mean absolute value instead of the root mean square
+            am = op.ReduceMean(op.Abs(xc), AX, keepdims=1, noop_with_empty_axes=0)
+            rms_ = op.Sqrt(op.Add(op.Mul(am, am), e))
+        else:
+            rms_ = op.Sqrt(op.Add(mean_sq, e))
         if recip:
             normalized = op.Mul(xc, op.Reciprocal(rms_))
         else:
@@ -205,7 +215,10 @@ def rms_norm(rng, dtype, shape, eps=1e-6, scale_first=False, cast_in=False, cast
         return normalized * scale
 
     sdt = dtype if not cast_scale else "f32"
-    feeds = {"x": rnd(rng, shape, dtype), "scale": np.asarray(rnd(rng, sshape, sdt) * 0.5 + 1, dtype=npdt(sdt))}
+    xv = rnd(rng, shape, dtype)
+    if len(shape) >= 2 and shape[-2] >= 2 and dtype == "f32":
+        xv[..., 0, :] *= np.asarray(1e-3, xv.dtype)       # one small-magnitude row: rms comparable to sqrt(eps)
+    feeds = {"x": xv, "scale": np.asarray(rnd(rng, sshape, sdt) * 0.5 + 1, dtype=npdt(sdt))}
     ins = [T(dtype)[tuple(shape)], T(sdt)[sshape] if sshape else T(sdt)]
     fn = rms
     if eps_input:
@@ -214,11 +227,12 @@ def rms_norm(rng, dtype, shape, eps=1e-6, scale_first=False, cast_in=False, cast
         ins.append(T(dtype)[1])
     if literal:
         fn = rms_lit
-    nm = eps_input or axis != -1 or scale_shape is not None or not recip or pow_exp != 2.0
+    nm = eps_input or axis != -1 or scale_shape is not None or not recip or pow_exp != 2.0 or eps_after_sqrt or abs_mean
     cls = (f"dtype={dtype};{'scale_first' if scale_first else 'norm_first'};cast={'in' if cast_in else 'none'}"
            f"{'+scale' if cast_scale else ''};eps={eps_form};rank={len(shape)}" + (";literal" if literal else "") +
            (f";axis={axis}" if axis != -1 else "") + (f";scale_rank={len(sshape)}" if scale_shape is not None else "") +
-           ("" if recip else ";div") + ("" if pow_exp == 2.0 else ";pow_off") + (";f16" if is_f16 and False else ""))
+           ("" if recip else ";div") + ("" if pow_exp == 2.0 else ";pow_off") + (";eps_after_sqrt" if eps_after_sqrt else "") +
+           (";abs_mean" if abs_mean else ""))
     return {"fusion": "rms_normalization", "cls": cls, "fn": fn, "in": ins, "out": [T(dtype)[tuple(shape)]], "feeds": feeds,
             "pipe": ["rms_normalization"], "near_miss": nm}
 
